@@ -26,7 +26,7 @@ THEOREMS = [
 ]
 
 PRECEDENCE = [
-    "topn:absent-limit", "order:pk-order-multi-rowset", "range:null-bound", "range:key-type-not-i32",
+    "topn:absent-limit", "order:pk-order-multi-rowset", "range:scan-filter-not-range", "range:null-bound", "range:key-type-not-i32",
     "range:key-not-first-scanned", "range:key-not-col0", "range:key-not-primary", "range:dup-keys-across-blocks",
 ]
 
